@@ -330,10 +330,88 @@ def solve_strfact(ob, t0):
     return res
 
 
+def goal_parts(g, depth=0):
+    """G1 and G2  ->  [G1, G2];  forall x. (A and B)  ->  [forall x. A, forall x. B]   (each part is proved on its own:
+    z3 was seen to answer `unknown` on a conjunction whose conjuncts it proves in milliseconds)"""
+    if z3.is_and(g):
+        out = []
+        for c in g.children():
+            out.extend(goal_parts(c, depth))
+        return out
+    if z3.is_quantifier(g) and g.is_forall() and depth < 3 and z3.is_and(g.body()):
+        n = g.num_vars()
+        vs = [z3.Const(f"{g.var_name(i)}", g.var_sort(i)) for i in range(n)]
+        body = z3.substitute_vars(g.body(), *reversed(vs))
+        out = []
+        for c in body.children():
+            for p in goal_parts(c, depth + 1):
+                out.append(z3.ForAll(vs, p))
+        return out
+    return [g]
+
+
+def hyp_key(h):
+    """a name for a hypothesis that does not depend on the numbering of fresh constants"""
+    import hashlib
+    import re
+    return hashlib.md5(re.sub(r"!\d+", "!", h.sexpr()).encode()).hexdigest()[:12]
+
+
+def core_of(ctx, ob, budget_ms):
+    """keys of the hypotheses in an unsat core of the (already discharged) obligation, or None"""
+    keys = set()
+    for p in goal_parts(ob["goal"]):
+        s = z3.Solver()
+        s.set(unsat_core=True)
+        s.add(ctx.axioms)
+        for i, h in enumerate(ob["hyps"]):
+            s.assert_and_track(h, z3.Bool(f"__hyp{i}"))
+        s.add(z3.Not(p))
+        if hard_check(s, budget_ms) != z3.unsat:
+            return None
+        for c in s.unsat_core():
+            keys.add(hyp_key(ob["hyps"][int(str(c)[5:])]))
+    return sorted(keys)
+
+
+def solve_with_hint(ctx, ob, timeout_ms, t0):
+    """first attempt: only the hypotheses of the unsat core recorded in the lock file (a subset of the hypotheses,
+    so a proof from them is a proof of the obligation); the small context makes the verdict independent of z3's
+    search order.  Falls through (None) when that does not succeed."""
+    hint = set(ob["hint"])
+    sel = [h for h in ob["hyps"] if hyp_key(h) in hint]
+    for p in goal_parts(ob["goal"]):
+        s = z3.Solver()
+        s.add(ctx.axioms)
+        s.add(sel)
+        s.add(z3.Not(p))
+        if hard_check(s, min(timeout_ms, 5000)) != z3.unsat:
+            return None
+    return {"id": ob["id"], "kind": ob["kind"], "time": time.time() - t0, "status": "discharged",
+            "solver": "z3-5.1(api; hypotheses restricted to the unsat core recorded in the lock)", "hint": f"{len(sel)} of {len(ob['hyps'])} hypotheses"}
+
+
 def solve(ctx, ob, timeout_ms=20000):
     t0 = time.time()
     if ob["kind"] == "strfact":
         return solve_strfact(ob, t0)
+    if ob.get("hint") and not ctx.finite and ob["kind"] not in ("frame-abs", "cover-sat") and not ob.get("_part"):
+        r = solve_with_hint(ctx, ob, timeout_ms, t0)
+        if r is not None:
+            return r
+    if ob["kind"] not in ("frame-abs", "cover-sat") and not ob.get("_part"):
+        parts = goal_parts(ob["goal"])
+        if len(parts) > 1:
+            res = None
+            for k, p in enumerate(parts):
+                r = solve(ctx, dict(ob, goal=p, _part=True), timeout_ms)
+                if res is None or r["status"] != "discharged":
+                    res = r
+                if r["status"] != "discharged":
+                    res["detail"] = f"conjunct {k + 1}/{len(parts)} of the goal: " + str(r.get("detail", ""))
+                    break
+            res["time"] = time.time() - t0
+            return res
     s = z3.Solver()
     s.set(timeout=timeout_ms)
     if ob["kind"] == "frame-abs":
